@@ -125,7 +125,7 @@ Definition unknown_var (h : host) (n : list Z) : Prop :=
   lookup_variable h n = None /\ handed_for n (h_varset h) = [].
 Fixpoint has_unknown (h : host) (e : expr) : Prop :=
   match e with
-  | XNum _ | XCell _ _ | XRange _ _ _ _ => False
+  | XNum _ | XDec _ _ | XFrac _ | XPct _ | XPowLit _ _ | XStr _ | XErr _ | XCell _ _ | XRange _ _ _ _ => False
   | XVar n => unknown_var h n
   | XCall name args => unknown_fn h name \/
       (fix any (l : list expr) : Prop := match l with [] => False | a :: r => has_unknown h a \/ any r end) args
@@ -146,7 +146,7 @@ Proof.
 Qed.
 Theorem unknown_never_value h : forall e, has_unknown h e -> forall v, fst (xval h e) <> ROk v.
 Proof.
-  induction e as [d|n|k lab|k1 l1 k2 l2|name args IHargs|e IH|b l r IHl IHr|e IH] using expr_ind'; cbn [has_unknown]; intros U v H;
+  induction e as [d|ip fp|fp|pn|pa pb|str|xe|n|k lab|k1 l1 k2 l2|name args IHargs|e IH|b l r IHl IHr|e IH] using expr_ind'; cbn [has_unknown]; intros U v H;
     try contradiction.
   - destruct U as [L S]. cbn [xval] in H. rewrite (variable_unknown h n L S) in H. discriminate.
   - change (unknown_fn h name \/ any_unknown h args) in U. cbn [xval] in H.
@@ -174,7 +174,7 @@ Definition ref_of (e : event) : ref :=
   end.
 Fixpoint refs (e : expr) : list ref :=
   match e with
-  | XNum _ => []
+  | XNum _ | XDec _ _ | XFrac _ | XPct _ | XPowLit _ _ | XStr _ | XErr _ => []
   | XVar n => [RVar n]
   | XCell _ l => [RCell (upper_text l)]
   | XRange _ _ _ _ => [RRange]
@@ -192,7 +192,13 @@ Proof.
 Qed.
 Theorem events_postorder h : forall e v, fst (xval h e) = ROk v -> map ref_of (snd (xval h e)) = refs e.
 Proof.
-  induction e as [d|n|k lab|k1 l1 k2 l2|name args IHargs|e IH|b l r IHl IHr|e IH] using expr_ind'; intros v H.
+  induction e as [d|ip fp|fp|pn|pa pb|str|xe|n|k lab|k1 l1 k2 l2|name args IHargs|e IH|b l r IHl IHr|e IH] using expr_ind'; intros v H.
+  - reflexivity.
+  - reflexivity.
+  - reflexivity.
+  - reflexivity.
+  - reflexivity.
+  - reflexivity.
   - reflexivity.
   - cbn [xval refs] in *. unfold call_variable in *. destruct (last_handed _ _); cbn in *; [reflexivity|discriminate].
   - cbn [xval refs] in *. unfold call_cell_value in *. destruct (extract_label (upper_text lab)) as [[row col]|]; cbn in *; [reflexivity|discriminate].
